@@ -40,7 +40,11 @@ func (c Case) Text() string {
 	return strings.Join(ls, "\n")
 }
 
-const prelude = "(do (defmacro spl (fn (a) (list 'quasiquote (list (list 'splice-unquote a) 9)))) (defmacro splv (fn (a b) (list 'quasiquote (vector 0 (list 'splice-unquote a) (list 'unquote b) (list 'splice-unquote a))))))"
+const prelude = "(do " +
+	"(defmacro spl (fn (a) (list 'quasiquote (list (list 'splice-unquote a) 9)))) " +
+	"(defmacro splv (fn (a b) (list 'quasiquote (vector 0 (list 'splice-unquote a) (list 'unquote b) (list 'splice-unquote a))))) " +
+	"(def tl-build (fn (v n acc) (if (< n 1) acc (tl-build (conj v n) (- n 1) (conj acc (fn () v)))))) " +
+	"(def tl-build2 (fn (v n acc) (let (w v) (if (< n 1) acc (do (count w) (tl-build2 (conj w n) (- n 1) (conj acc (fn () w)))))))))"
 
 type hg struct {
 	t    *rapid.T
@@ -149,7 +153,7 @@ func (g *hg) literal() Op {
 func (g *hg) step() Op {
 	seqKinds := []string{"list", "vec"}
 	for tries := 0; tries < 6; tries++ {
-		switch c := gen.Uniform(g.t, "op", 35); {
+		switch c := gen.Uniform(g.t, "op", 36); {
 		case c == 0:
 			return g.literal()
 		case c <= 3:
@@ -358,6 +362,11 @@ func (g *hg) step() Op {
 					return Op{Expr: "((fn (c) (let (snap (fn () c)) " + inner + ")) " + p + ")", Kind: "closure", Call: true, Same: p}
 				}
 				return Op{Expr: "(let (c " + p + " snap (fn () c)) " + inner + ")", Kind: "closure", Call: true, Same: p}
+			}
+		case c == 34: // a self tail-recursive builder collects one closure per iteration over its parameter; the first one captured the parent
+			if p, ok := g.parent("list", "vec"); ok {
+				b := []string{"tl-build", "tl-build2"}[g.pick("tlb", 2)]
+				return Op{Expr: "(first (" + b + " " + p + " 3 []))", Kind: "closure", Call: true, Same: p}
 			}
 		case c == 31: // reduce with conj: many extensions in a row
 			if p, ok := g.parent(seqKinds...); ok {
